@@ -512,7 +512,12 @@ fn run_worker(cfg: &ExploreCfg, part: Option<Partition>, body: Arc<dyn Fn() + Se
                     .unwrap_or_else(|| "?".into());
                 let first = msg.lines().next().unwrap_or("").to_string();
                 let kind = if first.starts_with("deadlock!") { "deadlock" } else { "panic" };
-                let detail = if kind == "panic" { LAST_PANIC.with(|p| p.borrow().clone()).unwrap_or(first.clone()) } else { first.clone() };
+                let mut detail = if kind == "panic" { LAST_PANIC.with(|p| p.borrow().clone()).unwrap_or(first.clone()) } else { first.clone() };
+                if kind == "deadlock" {
+                    if let Some((tag, d)) = super::world::waiting_for() {
+                        detail = format!("deadlock[{}] {} | {}", tag, d, first);
+                    }
+                }
                 let (choices, probe) = CORE.with(|c| {
                     let c = c.borrow();
                     (c.stack.iter().take(c.step.max(0)).map(|f| f.idx).collect::<Vec<_>>(), c.probe)
@@ -608,7 +613,12 @@ pub fn replay(choices: Vec<u32>, body: Arc<dyn Fn() + Send + Sync>) -> Result<()
                 .unwrap_or_else(|| "?".into());
             let first = msg.lines().next().unwrap_or("").to_string();
             let kind = if first.starts_with("deadlock!") { "deadlock" } else { "panic" };
-            let detail = if kind == "panic" { LAST_PANIC.with(|p| p.borrow().clone()).unwrap_or(first.clone()) } else { first };
+            let mut detail = if kind == "panic" { LAST_PANIC.with(|p| p.borrow().clone()).unwrap_or(first.clone()) } else { first.clone() };
+            if kind == "deadlock" {
+                if let Some((tag, d)) = super::world::waiting_for() {
+                    detail = format!("deadlock[{}] {} | {}", tag, d, first);
+                }
+            }
             super::world::abandon();
             clear_monitor();
             Err(Failure { kind, message: detail, choices })
@@ -694,7 +704,12 @@ pub fn run_batch(range: std::ops::Range<usize>, body: Arc<dyn Fn(usize) + Send +
                 .unwrap_or_else(|| "?".into());
             let first = msg.lines().next().unwrap_or("").to_string();
             let kind = if first.starts_with("deadlock!") { "deadlock" } else { "panic" };
-            let detail = if kind == "panic" { LAST_PANIC.with(|p| p.borrow().clone()).unwrap_or(first.clone()) } else { first };
+            let mut detail = if kind == "panic" { LAST_PANIC.with(|p| p.borrow().clone()).unwrap_or(first.clone()) } else { first.clone() };
+            if kind == "deadlock" {
+                if let Some((tag, d)) = super::world::waiting_for() {
+                    detail = format!("deadlock[{}] {} | {}", tag, d, first);
+                }
+            }
             super::world::abandon();
             clear_monitor();
             let i = BATCH_NEXT.with(|n| n.get()).saturating_sub(1);
